@@ -87,30 +87,38 @@ Proof.
       * rewrite <- Hr, Ht. apply brackets_complete; [assumption|]. rewrite app_length. lia.
 Qed.
 
-(** ** the identity clause in plain terms: GET / PATCH of /{type}/{id} without errors *)
+(** ** the identity clause in plain terms: GET / PATCH of /{type}/{id} without errors.  The data is
+    one resource object with the path's type and id; every relationship object belongs to a
+    relationship definition [d] of the type and carries exactly the standard self/related links of
+    THIS type, id and relationship name, overlaid with the links [d]'s resolver supplied for the
+    value [val] the application returned for this request (nothing else enters: the answer is a
+    function of the request and the schema) *)
 Theorem fetch_identity pmt choose (Hchoose : choose_ok choose) sch rq st ct v data top c t id :
   serve_http fixed pmt choose sch rq = Resp st ct (WDoc v data [] top) c ->
   endpoint_of sch (rq_path rq) = EResource t id -> rq_method rq <> s_DELETE ->
-  exists i, data = WOne i /\ w_type i = rt_name t /\ w_id i = id /\
+  exists i val, data = WOne i /\ w_type i = rt_name t /\ w_id i = id /\
             links_equal top [(s_self, rq_path rq)] = true /\
+            resource_value rq t id = Some val /\
             (forall name rel, In (name, rel) (w_rels i) ->
-                              links_equal (rel_links rel) (standard_links (rt_name t) id name) = true).
+               exists d, In d (rt_rels t) /\ rd_name d = name /\
+                 links_equal (rel_links rel)
+                   (overlay (standard_links (rt_name t) id name) (rel_links (supplied d val false))) = true).
 Proof.
   intros Hs Hep Hm.
   pose proof (ja_resource_identity pmt choose Hchoose sch rq st ct v data top c Hs) as H.
   unfold identity_and_links in H. rewrite Hep in H. rewrite (is_method_neq _ _ Hm) in H.
-  destruct data as [| |i|l].
-  - destruct (negb (forallb item_links_standard [])); discriminate.
-  - destruct (negb (forallb item_links_standard [])); discriminate.
-  - destruct (forallb item_links_standard [i]) eqn:HL; cbn [negb] in H; [|discriminate].
-    destruct (item_is (rt_name t) id i) eqn:HI; cbn [negb] in H; [|discriminate].
-    destruct (links_equal top [(s_self, rq_path rq)]) eqn:HT; cbn [negb] in H; [|discriminate].
-    unfold item_is in HI. apply andb_true_iff in HI. destruct HI as [H1 H2].
-    apply bytes_eqb_eq in H1. apply bytes_eqb_eq in H2.
-    exists i. repeat split; auto.
-    intros name rel Hin. cbn [forallb] in HL. rewrite andb_true_r in HL. unfold item_links_standard in HL.
-    rewrite forallb_forall in HL. specialize (HL _ Hin). cbn [fst snd] in HL. rewrite H1, H2 in HL. exact HL.
-  - destruct (negb (forallb item_links_standard l)); discriminate.
+  destruct data as [| |i|l]; try discriminate.
+  destruct (item_is (rt_name t) id i) eqn:HI; cbn [negb] in H; [|discriminate].
+  destruct (links_equal top [(s_self, rq_path rq)]) eqn:HT; cbn [negb] in H; [|discriminate].
+  destruct (resource_value rq t id) as [val|] eqn:HV; [|discriminate].
+  destruct (item_rels_ok t val i) eqn:HL; [|discriminate].
+  unfold item_is in HI. apply andb_true_iff in HI. destruct HI as [H1 H2].
+  apply bytes_eqb_eq in H1. apply bytes_eqb_eq in H2.
+  exists i, val. repeat split; auto.
+  intros name rel Hin. unfold item_rels_ok in HL. rewrite forallb_forall in HL. specialize (HL _ Hin).
+  unfold rel_object_ok in HL. cbn [fst snd] in HL. apply existsb_exists in HL. destruct HL as [d [Hd HL]].
+  apply andb_true_iff in HL. destruct HL as [HL _]. apply andb_true_iff in HL. destruct HL as [Hn HL].
+  apply bytes_eqb_eq in Hn. rewrite H1, H2 in HL. exists d. auto.
 Qed.
 
 (** ** (3) C19_respects_equiv: the Spec does not see the order of object members, so agreement of
@@ -142,10 +150,33 @@ Proof.
   intros H E. induction H as [|a b l l' Hab _ IH]; cbn [forallb]; [reflexivity|]. rewrite (E _ _ Hab), IH. reflexivity.
 Qed.
 
-Lemma item_links_standard_equiv a b : witem_equiv a b -> item_links_standard a = item_links_standard b.
+Lemma meta_names_equal_perm_l x x' y :
+  Permutation (map fst x) (map fst x') -> meta_names_equal x y = meta_names_equal x' y.
 Proof.
-  intros (Ht & Hi & _ & l & P & F). unfold item_links_standard. rewrite (forallb_perm _ _ _ P).
-  eapply forallb_Forall2; [exact F|]. intros x y (Hn & Hl & _). rewrite Ht, Hi, Hn. apply links_equal_perm_l. assumption.
+  intro P. unfold meta_names_equal. rewrite (forallb_perm _ _ _ P). f_equal.
+  apply forallb_ext_eq. intro k. apply existsb_perm. assumption.
+Qed.
+
+Lemma existsb_ext_eq {A} (f g : A -> bool) l : (forall x, f x = g x) -> existsb f l = existsb g l.
+Proof. intro H. induction l as [|x l IH]; cbn [existsb]; [reflexivity|]. rewrite H, IH. reflexivity. Qed.
+
+Lemma rel_object_ok_equiv ty id t v x y : rel_equiv x y -> rel_object_ok ty id t v x = rel_object_ok ty id t v y.
+Proof.
+  intros (Hn & Hl & _ & Hm). unfold rel_object_ok. apply existsb_ext_eq. intro d.
+  rewrite Hn, (links_equal_perm_l _ _ _ Hl), (meta_names_equal_perm_l _ _ _ Hm). reflexivity.
+Qed.
+
+Lemma item_rels_ok_equiv t v a b : witem_equiv a b -> item_rels_ok t v a = item_rels_ok t v b.
+Proof.
+  intros (Ht & Hi & _ & l & P & F). unfold item_rels_ok. rewrite (forallb_perm _ _ _ P).
+  eapply forallb_Forall2; [exact F|]. intros x y H. rewrite Ht, Hi. apply rel_object_ok_equiv. assumption.
+Qed.
+
+Lemma fetched_item_ok_equiv sch a b : witem_equiv a b -> fetched_item_ok sch a = fetched_item_ok sch b.
+Proof.
+  intro H. pose proof H as (Ht & Hi & _). unfold fetched_item_ok. rewrite Ht, Hi.
+  destruct (lookup_type sch (w_type b)) as [t'|]; [|reflexivity]. destruct (rt_get t') as [g|]; [|reflexivity].
+  destruct (g (w_id b)); try reflexivity. apply item_rels_ok_equiv. assumption.
 Qed.
 
 Lemma item_is_equiv ty id a b : witem_equiv a b -> item_is ty id a = item_is ty id b.
@@ -172,22 +203,62 @@ Proof.
     + apply IH. constructor; assumption.
 Qed.
 
+Lemma identities_are_equiv ids : forall l l', Forall2 witem_equiv l l' -> identities_are l ids = identities_are l' ids.
+Proof.
+  induction ids as [|r ids IH]; intros l l' F.
+  - destruct F; reflexivity.
+  - destruct F as [|a b l l' Hab F]; [reflexivity|]. cbn [identities_are].
+    rewrite (item_is_equiv _ _ _ _ Hab), (IH _ _ F). reflexivity.
+Qed.
+
+Lemma data_is_equiv od d d' : wdata_equiv d d' -> data_is od d = data_is od d'.
+Proof.
+  intro H. destruct d as [| |a|l], d' as [| |b|l']; cbn [wdata_equiv] in H; try contradiction; try reflexivity;
+    destruct od as [[|r|ids]|]; cbn [data_is]; try reflexivity.
+  - apply item_is_equiv. assumption.
+  - apply identities_are_equiv. assumption.
+Qed.
+
+Definition items_of (d : wdata) : list witem := match d with WOne i => [i] | WMany l => l | _ => [] end.
+Lemma identifiers_equiv d d' : wdata_equiv d d' -> forallb is_identifier (items_of d) = forallb is_identifier (items_of d').
+Proof.
+  intro H. destruct d as [| |a|l], d' as [| |b|l']; cbn [wdata_equiv] in H; try contradiction; try reflexivity; cbn [items_of forallb].
+  - rewrite (is_identifier_equiv _ _ H). reflexivity.
+  - eapply forallb_Forall2; [exact H|]. intros; apply is_identifier_equiv; assumption.
+Qed.
+
 Lemma identity_and_links_equiv sch rq d d' top top' :
   wdata_equiv d d' -> Permutation top top' -> identity_and_links sch rq d top = identity_and_links sch rq d' top'.
 Proof.
   intros Hd Ht. unfold identity_and_links. cbv zeta.
-  destruct d as [| |a|l], d' as [| |b|l']; cbn [wdata_equiv] in Hd; try contradiction; cbn [forallb];
-    try rewrite (item_links_standard_equiv _ _ Hd); try rewrite (is_identifier_equiv _ _ Hd);
-    try rewrite (forallb_Forall2 _ _ _ _ _ Hd item_links_standard_equiv);
-    try rewrite (forallb_Forall2 _ _ _ _ _ Hd is_identifier_equiv);
-    destruct (endpoint_of sch (rq_path rq)) as [|t|t id|t id name|t id name];
-    try destruct (decode_body (dec_resource_request false) (rq_body rq));
-    try destruct (rt_create t);
-    try destruct (endpoint_linkage t id name) as [[|rr|ids]|];
-    try destruct (lookup_rel t name) as [dd|];
-    rewrite ?(links_equal_perm_l top top' _ Ht);
-    try rewrite (item_is_equiv _ _ _ _ Hd); try rewrite (sub_identities_equiv _ _ _ Hd);
-    reflexivity.
+  destruct (endpoint_of sch (rq_path rq)) as [|t|t id|t id name|t id name]; [reflexivity| | | |].
+  - destruct (decode_body (dec_resource_request false) (rq_body rq)); [|reflexivity].
+    destruct (rt_create t); [|reflexivity].
+    destruct d as [| |a|l], d' as [| |b|l']; cbn [wdata_equiv] in Hd; try contradiction; try reflexivity.
+    rewrite (item_is_equiv _ _ _ _ Hd), (links_equal_perm_l top top' _ Ht).
+    destruct (fst _); try reflexivity. rewrite (item_rels_ok_equiv _ _ _ _ Hd). reflexivity.
+  - destruct d as [| |a|l], d' as [| |b|l']; cbn [wdata_equiv] in Hd; try contradiction; try reflexivity.
+    rewrite (item_is_equiv _ _ _ _ Hd), (links_equal_perm_l top top' _ Ht).
+    destruct (resource_value rq t id); [|reflexivity]. rewrite (item_rels_ok_equiv _ _ _ _ Hd). reflexivity.
+  - rewrite (links_equal_perm_l top top' _ Ht).
+    destruct (negb (links_equal top' [(s_self, rq_path rq)])); [reflexivity|].
+    destruct (endpoint_linkage t id name) as [[|rr|ids]|];
+      destruct d as [| |a|l], d' as [| |b|l']; cbn [wdata_equiv] in Hd; try contradiction; try reflexivity.
+    + rewrite (item_is_equiv _ _ _ _ Hd). destruct (negb (item_is (r_type rr) (r_id rr) b)); [reflexivity|].
+      destruct (lookup_type sch (r_type rr)) as [t'|]; [|reflexivity].
+      destruct (resource_value rq t' (r_id rr)); [|reflexivity]. rewrite (item_rels_ok_equiv _ _ _ _ Hd). reflexivity.
+    + rewrite (sub_identities_equiv _ _ _ Hd).
+      rewrite (forallb_Forall2 _ _ _ _ _ Hd (fetched_item_ok_equiv sch)). reflexivity.
+  - destruct (lookup_rel t name) as [dd|]; [|reflexivity].
+    destruct (relationship_reply rq t id name dd) as [extra custom].
+    rewrite (links_equal_perm_l top top' _ Ht).
+    change (match d with WOne i => [i] | WMany l => l | _ => [] end) with (items_of d).
+    change (match d' with WOne i => [i] | WMany l => l | _ => [] end) with (items_of d').
+    rewrite (identifiers_equiv _ _ Hd).
+    destruct (negb (links_equal top' _)); [reflexivity|]. destruct (negb (forallb is_identifier (items_of d'))); [reflexivity|].
+    destruct custom as [od|].
+    + rewrite (data_is_equiv od _ _ Hd). reflexivity.
+    + destruct d as [| |a|l], d' as [| |b|l']; cbn [wdata_equiv] in Hd; try contradiction; reflexivity.
 Qed.
 
 Lemma data_present_equiv d d' : wdata_equiv d d' -> data_present d = data_present d'.
@@ -208,4 +279,46 @@ Proof.
       apply identity_and_links_equiv; assumption.
     + destruct (Z.eqb st (errors_status (b :: e'))); reflexivity.
   - subst. reflexivity.
+Qed.
+
+(** ** (4) histories.  A history is a sequence of requests served by ONE API value.  The model has no
+    state: its answer to the n-th request is [serve_http] of that request alone, whatever came
+    before, and every answer of a history satisfies the Spec of its own request (in particular the
+    relationship links of every resource object are those of ITS OWN type, id and relationship
+    overlaid with what the resolver supplied for ITS value).  That the real handler behaves like
+    this stateless function is what the correspondence check observes on histories against
+    resolvers whose Links maps are shared between resources, relationships and requests. *)
+Definition serve_history pmt choose sch (rqs : list request) : list outcome :=
+  map (serve_http fixed pmt choose sch) rqs.
+
+Theorem history_spec pmt choose (Hchoose : choose_ok choose) sch rqs :
+  Forall2 (fun rq o => exists st bd c, o = Resp st media_type bd c /\
+                                        oracle pmt sch rq (Some (st, media_type, Some bd)) = None)
+          rqs (serve_history pmt choose sch rqs).
+Proof.
+  induction rqs as [|rq rqs IH]; [constructor|]. cbn [serve_history map]. constructor; [|exact IH].
+  destruct (model_satisfies_spec pmt choose Hchoose sch rq) as (st & bd & c & E & O). exists st, bd, c. auto.
+Qed.
+
+(** the answer to a request does not depend on where in a history it is served *)
+Theorem history_independent pmt choose sch before before' rq :
+  nth (List.length before) (serve_history pmt choose sch (before ++ [rq])) Panic =
+  nth (List.length before') (serve_history pmt choose sch (before' ++ [rq])) Panic.
+Proof.
+  unfold serve_history. rewrite !map_app, !app_nth2, !map_length, !Nat.sub_diag by (rewrite map_length; apply le_n).
+  reflexivity.
+Qed.
+
+(** ** (5) a request document followed by anything but white space is malformed: 400, no call *)
+Theorem trailing_bytes_400 pmt choose (Hchoose : choose_ok choose) sch rq t id j tail :
+  acceptable pmt (rq_accept rq) = true -> forallb supported_parameter (rq_query rq) = true ->
+  endpoint_of sch (rq_path rq) = EResource t id -> rq_method rq = s_PATCH ->
+  rq_body rq = BJson j tail -> forallb is_json_space tail = false ->
+  answer_status (serve_http fixed pmt choose sch rq) = Some 400%Z.
+Proof.
+  intros Ha Hq Hep Hm Hb Ht. apply (status_in_singleton pmt choose Hchoose sch rq).
+  unfold ref_status. rewrite Ha, Hq. cbn [negb]. unfold operation_status. rewrite Hep, Hm.
+  replace (is_method s_PATCH s_GET) with false by reflexivity.
+  replace (is_method s_PATCH s_PATCH) with true by reflexivity.
+  unfold update_rule, decode_body. rewrite Hb, Ht. reflexivity.
 Qed.
